@@ -108,6 +108,28 @@ def make_target(spec):
                 h = Hc.hash("pw", **ctxkw)
             return extract(h), r.log
 
+        if spec.get("via") == "django_adapter":
+            # the Django-hasher adapter of passlib.ext.django (what Django's get_hasher() hands out once the extension is
+            # loaded): an adapter that has ALREADY re-computed a stored hash under its explicit salt makes the next new
+            # hash under a salt that follows the random source, like the handler itself
+            from mc.checks.c17 import _configure_django
+
+            _configure_django()
+            from passlib.ext.django.utils import DjangoTranslator
+
+            fixed = HS.make_salt(name, size, 0, 9)
+
+            def adapter_hash(ans):
+                ad = DjangoTranslator().passlib_to_django(Hc)
+                ad.encode("stored-password", fixed)
+                r = env.ScriptedRng(ans)
+                with env.scripted_rng(r):
+                    return ad.encode("pw", ad.salt()), r.log
+
+            def f(ans):  # noqa: F811
+                h, log = adapter_hash(ans)
+                return extract(h), log
+
         if raw or (name == "scrypt"):
             legal = lambda pos: {0, 1}  # noqa: E731
             hint = 2
@@ -135,6 +157,8 @@ def make_target(spec):
             st.sort(key=lambda g: -len(g["salt"]))
             return H.using(**dict(kw, salt=st[0]["salt"])).hash("pw", **ctxkw) if st and "salt_size" not in kw else None
 
+        if spec.get("via"):
+            return dict(f=f, hint=hint, expect_len=elen, space=space, legal=legal)
         return dict(f=f, hint=hint, expect_len=elen, space=space, legal=legal, two_draws=True, hash_of=hash_of, fixed_hash=fixed_hash)
     if kind == "totp_new":
         from passlib import totp as T
@@ -310,7 +334,7 @@ def tname(spec):
         return f"getrandstr({'bytes' if isinstance(cs, bytes) else 'text'}{len(cs)},{spec['count']})"
     if k == "hasher_salt":
         extra = ",".join(f"{a}={b}" for a, b in sorted((spec.get("settings") or {}).items()))
-        return f"salt:{spec['hasher']}:{spec.get('salt_size')}" + (f":{extra}" if extra else "")
+        return f"salt:{spec['hasher']}:{spec.get('salt_size')}" + (f":{extra}" if extra else "") + (f":via={spec['via']}" if spec.get("via") else "")
     if k == "totp_new":
         return f"TOTP.new({spec['alg']},{spec['size']})"
     if k == "wallet_salt":
@@ -953,6 +977,8 @@ def targets(quick, seed):
         for sz in sizes:
             for e in extras:
                 ts.append({"kind": "hasher_salt", "hasher": name, "salt_size": sz, "settings": e})
+    for name in ("sha256_crypt", "pbkdf2_sha256", "md5_crypt", "sha1_crypt", "ldap_salted_sha1", "phpass"):
+        ts.append({"kind": "hasher_salt", "hasher": name, "salt_size": None, "settings": {}, "via": "django_adapter"})
     for alg, dsz in (("sha1", 20), ("sha256", 32), ("sha512", 64)):
         for size in (sorted({10, 16, dsz}) if quick else range(10, dsz + 1)):
             ts.append({"kind": "totp_new", "alg": alg, "size": size})
